@@ -82,6 +82,14 @@ class RaftNode(Entity):
         self._network = network
         self._peers: list[RaftNode] = list(peers) if peers else []
         self._state_machine = state_machine or KVStateMachine()
+        if election_timeout_min <= 0:
+            raise ValueError(f"election_timeout_min must be > 0, got {election_timeout_min}")
+        if heartbeat_interval <= 0:
+            raise ValueError(f"heartbeat_interval must be > 0, got {heartbeat_interval}")
+        if election_timeout_max < election_timeout_min:
+            raise ValueError(
+                f"election_timeout_max ({election_timeout_max}) must be >= election_timeout_min ({election_timeout_min})"
+            )
         self._election_timeout_min = election_timeout_min
         self._election_timeout_max = election_timeout_max
         self._heartbeat_interval = heartbeat_interval
